@@ -484,6 +484,38 @@ def subset_sweep(tier="quick", seed=0):
                     if want != got:
                         what = "accepts an unpacking CPython rejects" if want is None else "rejects an unpacking CPython accepts" if got is None else "splits differently"
                         fails.setdefault("unpack: " + what, f"{n_targets} targets, star at {star}, {kind.__name__} source of {length} elements: CPython {want}, _split_target {got}")
+    # loop / comprehension / with targets (PrepareAst.Target.unpack): the binding CPython's `for <target> in [item]` produces,
+    # or a rejection -- never a silent truncation of an item that is longer or shorter than the target
+    class _Conv:
+        def __init__(self):
+            self.bound = {}
+
+        def bound_names(self):
+            return set()
+
+        def set_local(self, name, value):
+            self.bound[name] = value
+
+    items = [1, (1, 2), (1, 2, 3), ((1, 2), 3), (1, (2, 3)), (1, (2, 3, 4)), ((1, 2, 3), 4), [1, 2], "xy", (1,), (), ((1, 2), (3, 4)), (1, 2, 3, 4)]
+    for target_src in ("a", "a, b", "(a, b), c", "a, (b, c)", "a, b, c", "(a, b), (c, d)"):
+        target_node = ast.parse(f"for {target_src} in x: pass").body[0].target
+        for item in items:
+            n += 1
+            ns = {"x": [item]}
+            try:
+                exec(f"for {target_src} in x: pass", ns)
+                want = {k: v for k, v in ns.items() if k in "abcd"}
+            except (ValueError, TypeError):
+                want = None
+            conv = _Conv()
+            try:
+                PA.PrepareAst.Target(target_node, conv).unpack(item)
+                got = dict(conv.bound)
+            except Exception:  # noqa: BLE001  (a rejection is allowed)
+                got = None
+            if got is not None and got != want:
+                what = "accepts an item CPython cannot unpack into the target" if want is None else "binds differently"
+                fails.setdefault("loop target: " + what, f"`for {target_src} in [{item!r}]`: CPython {want}, Target.unpack binds {got}")
     for label, fn, args in _lambda_cases():
         n += 1
         want = fn(*args)
